@@ -203,12 +203,14 @@ def build_harness(profile="debug", hooks=True):
         if not os.path.exists(lock) or not os.path.exists(lock_saved) or open(lock_saved).read() != cur:
             open(lock, "w").write(cur)
             open(lock_saved, "w").write(cur)
-        env = {"RUSTFLAGS": ("--cfg %s" % HOOK_CFG) if hooks else "", "CARGO_TARGET_DIR": os.path.join(HARNESS, "target")}
-        cmd = ["cargo", "build", "--offline", "--quiet"] + (["--release"] if profile == "release" else [])
+        tdir = "target-nolasso" if profile == "nolasso" else "target"
+        env = {"RUSTFLAGS": ("--cfg %s" % HOOK_CFG) if hooks else "", "CARGO_TARGET_DIR": os.path.join(HARNESS, tdir)}
+        cmd = ["cargo", "build", "--offline", "--quiet"] + (["--release"] if profile == "release" else []) \
+            + (["--no-default-features"] if profile == "nolasso" else [])
         rc, out = sh(cmd, cwd=HARNESS, env=env, timeout=1800)
         if rc != 0:
             raise Broken("harness does not build against %s (%s)" % (REPO, profile), out[-6000:])
-        return os.path.join(HARNESS, "target", profile, "implrun")
+        return os.path.join(HARNESS, tdir, "release" if profile == "release" else "debug", "implrun")
 
 
 # ------------------------------------------------------------------------------------------------
